@@ -359,6 +359,191 @@ theorem roundtrip_bound_no_positions {W U : Nat} {m m₁ m₂ : Market} {d : Dep
   have hP := poolValue_after_deposit_le hd hw hno hi hl hsh
   exact ⟨(roundtrip_bound hd hw hs hl hsh hP).1, fun h0 => roundtrip_no_profit_partial hd hw hs hl hsh hP h0⟩
 
+/-! ### the pool-value hypothesis WITH open positions -/
+
+/-- **pool value after a deposit, with open positions.** Assumptions, all explicit:
+* the borrowing clock is fresh (`passedInSeconds now clockBorrowing = 0`) — on chain every deposit
+  and withdrawal is preceded by `pre_execute` (distribute impact, update borrowing, update funding);
+  otherwise the *estimate* of pending borrowing fees falls when a deposit lowers the utilisation;
+* prices `min ≤ max` (index, long, short);
+* `hcapL`/`hcapS`: in the withdrawal's valuation the pnl cap cuts at most `eL`/`eS` off the pnl of
+  the long/short side (`withdraw_caps_slack` derives these from the withdrawal's own validations).
+Nothing is assumed about the deposit's cap (a capped pnl only raises the deposit's pool value),
+about pnl signs, or about the funding state. Then the pool value the withdrawal sees is at most
+the pool value the deposit saw plus the value it credited plus `eL + eS`. -/
+theorem poolValue_after_deposit_le_open {W U : Nat} {m m₁ m₂ : Market} {d : DepositParams} {pin pin' : PerpIn}
+    {t : DepositTrace} {r : WithdrawReport} {eL eS : Nat}
+    (hd : deposit W U m d pin = (m₁, .ok t))
+    (hw : withdraw W U m₁ ⟨t.report.minted, d.prices⟩ pin' = (m₂, .ok r))
+    (fresh : passedInSeconds m.now m.clockBorrowing = 0)
+    (hi : d.prices.index.min ≤ d.prices.index.max)
+    (hl : d.prices.long.min ≤ d.prices.long.max) (hsh : d.prices.short.min ≤ d.prices.short.max)
+    (hcapL : ∀ p c lv, marketPnl W m₁ d.prices.index true true = some p →
+      poolValueWithoutPnlOneSide W m₁ d.prices true false = some lv →
+      capPnl W U p lv (m₁.cfg.pnlFactor .maxAfterWithdrawal) = some c → p ≤ c + eL)
+    (hcapS : ∀ p c sv, marketPnl W m₁ d.prices.index false true = some p →
+      poolValueWithoutPnlOneSide W m₁ d.prices false false = some sv →
+      capPnl W U p sv (m₁.cfg.pnlFactor .maxAfterWithdrawal) = some c → p ≤ c + eS) :
+    r.poolValue ≤ t.poolValue + creditedValue d t + eL + eS := by
+  have f := deposit_spec hd
+  obtain ⟨hfr, eLq, eSq⟩ := deposit_frame hd
+  obtain ⟨_, _, hpw, _, _⟩ := withdraw_no_dilution hw
+  obtain ⟨⟨lv, sv, fl, fs, pL, pS, cL, cS, dd, ni, lvN, svN, flN, fsN, niN, dN, e1, e2, e3, e4, e5, e6,
+    hlv, hsv, hfl, hfs, hrc, hpL, hpS, hcL, hcS, hpd, hv⟩⟩ := poolValue_parts f.pv
+  obtain ⟨⟨lv', sv', fl', fs', pL', pS', cL', cS', dd', ni', lvN', svN', flN', fsN', niN', dN', e1', e2', e3', e4', e5', e6',
+    hlv', hsv', hfl', hfs', hrc', hpL', hpS', hcL', hcS', hpd', hv'⟩⟩ := poolValue_parts hpw
+  -- frame: everything `pool_value` reads besides the liquidity pool is unchanged by the deposit
+  have hcfg : m₁.cfg = m.cfg := by rw [hfr]
+  have hT : ∀ b x, totalPendingBorrowingFees W U m₁ b x = totalPendingBorrowingFees W U m b x := by
+    intro b x; rw [hfr]; rfl
+  have hM : ∀ b mx, marketPnl W m₁ d.prices.index b mx = marketPnl W m d.prices.index b mx := by
+    intro b mx; rw [hfr]; rfl
+  have hD : m₁.pendingDistribution W U (passedInSeconds m₁.now m₁.clockImpactDist)
+      = m.pendingDistribution W U (passedInSeconds m.now m.clockImpactDist) := by rw [hfr]; rfl
+  -- same pending fees (fresh clock), same impact pool
+  rw [hT, tpbf_fresh fresh true _ pin.bfpsL, hfl] at hfl'
+  rw [hT, tpbf_fresh fresh false _ pin.bfpsS, hfs] at hfs'
+  cases hfl'; cases hfs'
+  rw [hD, hpd] at hpd'
+  cases hpd'
+  -- pnl: the withdrawal maximises, the deposit minimises
+  simp only [Bool.not_true, Bool.not_false] at hpL hpS hpL' hpS' hv hv'
+  have hpL'' := hpL'; have hpS'' := hpS'
+  rw [hM] at hpL'' hpS''
+  have mL := marketPnl_min_le_max hi hpL hpL''
+  have mS := marketPnl_min_le_max hi hpS hpS''
+  have cLle := (capPnl_spec hcL).1
+  have cSle := (capPnl_spec hcS).1
+  have kL := hcapL pL' cL' lvN' hpL' hlv' hcL'
+  have kS := hcapS pS' cS' svN' hpS' hsv' hcS'
+  -- liquidity values
+  unfold poolValueWithoutPnlOneSide at hlv hsv hlv' hsv'
+  simp only [if_true, Bool.false_eq_true, if_false, Price.pick] at hlv hsv hlv' hsv' hv hv'
+  have hlv := checkedMul_eq hlv; have hsv := checkedMul_eq hsv
+  have hlv' := checkedMul_eq hlv'; have hsv' := checkedMul_eq hsv'
+  rw [eLq] at hlv'; rw [eSq] at hsv'
+  unfold creditedValue
+  generalize t.long.netAmount + t.long.fees.pool + t.short.positiveImpactAmount = x at *
+  generalize t.short.netAmount + t.short.fees.pool + t.long.positiveImpactAmount = y at *
+  have a1 := Nat.add_le_add (Nat.mul_le_mul_left m.primary.long hl) (Nat.mul_le_mul_left x hl)
+  have a2 := Nat.add_le_add (Nat.mul_le_mul_left m.primary.short hsh) (Nat.mul_le_mul_left y hsh)
+  have a3 := Nat.mul_le_mul_left niN hi
+  rw [Nat.add_mul] at hlv' hsv'
+  rw [hcfg] at hv'
+  subst e1 e2 e3 e4 e5 e6 e1' e2' e3' e4' e5' e6' hlv hsv hlv' hsv'
+  have b1 : ((m.primary.long * d.prices.long.min + x * d.prices.long.min : Nat) : Int)
+      ≤ ((m.primary.long * d.prices.long.max + x * d.prices.long.max : Nat) : Int) := by exact_mod_cast a1
+  have b2 : ((m.primary.short * d.prices.short.min + y * d.prices.short.min : Nat) : Int)
+      ≤ ((m.primary.short * d.prices.short.max + y * d.prices.short.max : Nat) : Int) := by exact_mod_cast a2
+  have b3 : ((niN * d.prices.index.min : Nat) : Int) ≤ ((niN * d.prices.index.max : Nat) : Int) := by exact_mod_cast a3
+  have goal : (r.poolValue : Int) ≤ ((t.poolValue + (x * d.prices.long.max + y * d.prices.short.max) + eL + eS : Nat) : Int) := by
+    push_cast at *
+    omega
+  exact_mod_cast goal
+
+/-- `roundtrip_bound` with an explicit slack `e` in the pool-value hypothesis: the pay-out is at
+most `creditedValue + e`. -/
+theorem roundtrip_bound_slack {W U : Nat} {m m₁ m₂ : Market} {d : DepositParams} {pin pin' : PerpIn}
+    {t : DepositTrace} {r : WithdrawReport} {e : Nat}
+    (hd : deposit W U m d pin = (m₁, .ok t))
+    (hw : withdraw W U m₁ ⟨t.report.minted, d.prices⟩ pin' = (m₂, .ok r))
+    (hs : m.supply ≠ 0)
+    (hl : d.prices.long.min ≤ d.prices.long.max) (hsh : d.prices.short.min ≤ d.prices.short.max)
+    (hP : r.poolValue ≤ t.poolValue + (creditedValue d t + e)) :
+    (r.longOut + r.feesL.pool + r.feesL.receiver) * d.prices.long.max
+      + (r.shortOut + r.feesS.pool + r.feesS.receiver) * d.prices.short.max ≤ creditedValue d t + e := by
+  obtain ⟨k1, _, k3⟩ := deposit_no_dilution hd hs
+  obtain ⟨w1, w2, _, _, _⟩ := withdraw_no_dilution hw
+  have hv : sideMintValue d true t.long + sideMintValue d false t.short ≤ creditedValue d t + e :=
+    Nat.le_trans (sideMintValue_le hl hsh) (Nat.le_add_right _ _)
+  have h1 : t.report.minted * t.poolValue ≤ m.supply * (creditedValue d t + e) :=
+    Nat.le_trans k1 (Nat.mul_le_mul_left _ hv)
+  have hpos : 0 < m.supply + t.report.minted := by omega
+  have h3 : r.value * (m.supply + t.report.minted) ≤ r.poolValue * t.report.minted := by
+    rw [← k3]; exact w1
+  exact Nat.le_trans w2 (roundtrip_core hpos h1 hP h3)
+
+/-- the withdrawal's own validations (reserve and max pnl factor, run on the pools AFTER the
+withdrawal) bound how much its pnl cap could have cut: at most `⌊poolValue_side/U⌋ + 1` (the
+rounding of the pnl factor), `poolValue_side` the side's liquidity value after the withdrawal at
+the MIN price. -/
+theorem withdraw_caps_slack {W U : Nat} {m₁ m₂ : Market} {w : WithdrawParams} {pin : PerpIn} {r : WithdrawReport}
+    (hw : withdraw W U m₁ w pin = (m₂, .ok r)) (b : Bool) :
+    ∀ p c lv, marketPnl W m₁ w.prices.index b true = some p →
+      poolValueWithoutPnlOneSide W m₁ w.prices b false = some lv →
+      capPnl W U p lv (m₁.cfg.pnlFactor .maxAfterWithdrawal) = some c →
+      p ≤ c + ((m₂.primary.amount b * (w.prices.collateral b).min / U + 1 : Nat) : Int) := by
+  intro p c lv hp hlv hc
+  have f := withdraw_spec hw
+  have hfr := f.frame
+  have hcfg : m₂.cfg = m₁.cfg := by rw [hfr]
+  have hM : marketPnl W m₂ w.prices.index b true = marketPnl W m₁ w.prices.index b true := by rw [hfr]; rfl
+  have hres : validateReserve W U m₂ w.prices b = .ok () := by cases b; exact f.reserve_short; exact f.reserve_long
+  have hpf : validatePnlFactor W U m₂ w.prices .maxAfterWithdrawal b = .ok () := by
+    have hm := f.maxpnl
+    unfold validateMaxPnl at hm
+    split at hm
+    · cases hm
+    · rename_i hlong
+      cases b
+      · exact hm
+      · exact hlong
+  cases hpv2 : poolValueWithoutPnlOneSide W m₂ w.prices b false with
+  | none => unfold validateReserve at hres; rw [hpv2] at hres; cases hres
+  | some pv2 =>
+    have key := pnl_le_cap_of_validated hres hpf (by rw [hM]; exact hp) hpv2
+    rw [hcfg] at key
+    have e2 : pv2 = m₂.primary.amount b * (w.prices.collateral b).min := by
+      unfold poolValueWithoutPnlOneSide at hpv2
+      cases b <;> simp only [Bool.false_eq_true, if_false, if_true, Price.pick] at hpv2 <;>
+        have := checkedMul_eq hpv2 <;> simpa [Pool.amount, Prices.collateral] using this
+    have e1 : lv = m₁.primary.amount b * (w.prices.collateral b).min := by
+      unfold poolValueWithoutPnlOneSide at hlv
+      cases b <;> simp only [Bool.false_eq_true, if_false, if_true, Price.pick] at hlv <;>
+        have := checkedMul_eq hlv <;> simpa [Pool.amount, Prices.collateral] using this
+    have hle : m₂.primary.amount b ≤ m₁.primary.amount b := by
+      have := f.liq_long; have := f.liq_short
+      cases b <;> simp [Pool.amount] <;> omega
+    have hpvle : pv2 ≤ lv := by rw [e1, e2]; exact Nat.mul_le_mul_right _ hle
+    have hcaple : pv2 * m₁.cfg.pnlFactor .maxAfterWithdrawal / U ≤ lv * m₁.cfg.pnlFactor .maxAfterWithdrawal / U :=
+      Nat.div_le_div_right (Nat.mul_le_mul_right _ hpvle)
+    obtain ⟨_, _, h3⟩ := capPnl_spec hc
+    rw [← e2]
+    push_cast
+    have : ((pv2 * m₁.cfg.pnlFactor .maxAfterWithdrawal / U : Nat) : Int)
+        ≤ ((lv * m₁.cfg.pnlFactor .maxAfterWithdrawal / U : Nat) : Int) := by exact_mod_cast hcaple
+    rcases h3 with h3 | h3
+    · have : (0 : Int) ≤ ((pv2 / U : Nat) : Int) := Int.natCast_nonneg _
+      omega
+    · omega
+
+/-- **round trip with open positions** (the on-chain flow: `pre_execute` has just updated the
+borrowing state, so the borrowing clock is fresh). With existing holders and prices `min ≤ max`,
+depositing and immediately withdrawing the minted tokens pays out at most
+
+`deposited + positive impact credited − receiver fees − negative impact + ε`,
+
+`ε = ⌊L₂·pL.min/U⌋ + ⌊S₂·pS.min/U⌋ + 2` being the rounding of the max-pnl-factor validation (`L₂`,
+`S₂` the liquidity left after the withdrawal; on chain `U = 10²⁰`, i.e. ε is the pool's USD value
+in units of 10⁻²⁰ USD … per whole USD one such unit). No assumption on pnl, caps or funding. -/
+theorem roundtrip_bound_open_positions {W U : Nat} {m m₁ m₂ : Market} {d : DepositParams} {pin pin' : PerpIn}
+    {t : DepositTrace} {r : WithdrawReport}
+    (hd : deposit W U m d pin = (m₁, .ok t))
+    (hw : withdraw W U m₁ ⟨t.report.minted, d.prices⟩ pin' = (m₂, .ok r))
+    (hs : m.supply ≠ 0)
+    (fresh : passedInSeconds m.now m.clockBorrowing = 0)
+    (hi : d.prices.index.min ≤ d.prices.index.max)
+    (hl : d.prices.long.min ≤ d.prices.long.max) (hsh : d.prices.short.min ≤ d.prices.short.max) :
+    (r.longOut + r.feesL.pool + r.feesL.receiver) * d.prices.long.max
+      + (r.shortOut + r.feesS.pool + r.feesS.receiver) * d.prices.short.max
+      ≤ creditedValue d t
+        + ((m₂.primary.long * d.prices.long.min / U + 1) + (m₂.primary.short * d.prices.short.min / U + 1)) := by
+  have cL := withdraw_caps_slack hw true
+  have cS := withdraw_caps_slack hw false
+  simp only [Pool.amount, Prices.collateral, if_true, Bool.false_eq_true, if_false] at cL cS
+  have hP := poolValue_after_deposit_le_open hd hw fresh hi hl hsh cL cS
+  exact roundtrip_bound_slack hd hw hs hl hsh (by omega)
+
 /-! ### the literal statement is false of the code: two witnesses (replayed on the implementation) -/
 
 /-- run a round trip on the model: `(value deposited, value returned, positive impact value
